@@ -48,7 +48,8 @@ def _run(node, tier, seed):
         prog = Prog(node, n_cont=2)
         key = base_key(seed)
         alph = grammar.rotate(node.arg_alphabet(), seed)
-        alph = alph[: (2 if tier == "quick" else 3)]
+        n_args = 3 if tier == "thorough" else (2 if node.depth() <= 1 else 1)
+        alph = alph[:n_args]
         max_paths = BOUNDS[tier]["max_paths"]
         for ai, args in enumerate(alph):
             for op in ("simulate", "propose") if ai == 0 else ("simulate",):
@@ -105,5 +106,9 @@ def _run(node, tier, seed):
 
 
 def cases(tier, seed):
-    for node in _programs(tier):
+    import os
+    progs = _programs(tier)
+    if os.environ.get("VERIF_SUBSET"):
+        progs = progs[:: int(os.environ["VERIF_SUBSET"])]
+    for node in progs:
         yield Case(node.name, _run(node, tier, seed), dict(program=node.name, kinds=sorted(node.kinds())))
